@@ -228,6 +228,44 @@ int _vnacal_new_check_all_frequency_ranges(const char *function,
  *   @vnp: pointer to vnacal_new_t structure
  *   @parameter: parameter index such as VNACAL_ZERO
  */
+/*
+ * _vnacal_new_check_parameter: test if _vnacal_new_get_parameter would accept
+ *   @function: name of user-called function
+ *   @vnp: pointer to vnacal_new_t structure
+ *   @parameter: parameter handle
+ *
+ * Reports the same errors as _vnacal_new_get_parameter, but registers
+ * nothing in the vnacal_new_t structure.
+ */
+int _vnacal_new_check_parameter(const char *function,
+	vnacal_new_t *vnp, int parameter)
+{
+    vnacal_t *vcp = vnp->vn_vcp;
+    vnacal_parameter_t *vpmrp;
+
+    if (hash_lookup(&vnp->vn_parameter_hash, parameter) != NULL) {
+	return 0;
+    }
+    if ((vpmrp = _vnacal_get_parameter(vcp, parameter)) == NULL) {
+	_vnacal_error(vcp, VNAERR_USAGE, "%s: invalid parameter index %d",
+		function, parameter);
+	return -1;
+    }
+    if (vnp->vn_frequencies_valid && vnp->vn_frequencies > 0) {
+	if (check_single_frequency_range(function, vnp,
+		    vnp->vn_frequency_vector[0],
+		    vnp->vn_frequency_vector[vnp->vn_frequencies - 1],
+		    vpmrp) == -1) {
+	    return -1;
+	}
+    }
+    if (VNACAL_GET_PARAMETER_TYPE(vpmrp) == VNACAL_CORRELATED) {
+	return _vnacal_new_check_parameter(function, vnp,
+		VNACAL_GET_PARAMETER_INDEX(VNACAL_GET_PARAMETER_OTHER(vpmrp)));
+    }
+    return 0;
+}
+
 vnacal_new_parameter_t *_vnacal_new_get_parameter(const char *function,
 	vnacal_new_t *vnp, int parameter)
 {
